@@ -6,7 +6,8 @@ import json
 
 ID = 'C01'
 NEED_BINS = True
-SIZES = {'quick': 30000, 'thorough': 1500000}
+SIZES = {'quick': 30000, 'thorough': 4000000}
+REQUIRED_EVENTS = ['merges_agreed', 'rejections_agreed', 'outputs_agreed']
 RULE = ('chains of 2-4 single-document layers; every child is derived from the model-merged result so far by labelled '
         'edits (override same/different scalar, add key, $delete present/absent, $replace:true, list append, list $delete '
         'full/partial/missing, list $match body/$value one/many/no hit, $invert, kind changes, misplaced directives, extra '
